@@ -77,6 +77,11 @@ var c19Rules = []struct {
 	name string
 	pred func(b drv.Bad, input, prior string) bool
 }{
+	// a property name with a comma becomes `yaml:"a,b,omitempty"`: yaml.v3 panics on the unknown option / on the doubled key when it first
+	// looks at the struct type (KF-C14-1 is the same name problem seen from the binding side)
+	{"TAG_OPTION_NAME_PANICS_YAML", func(b drv.Bad, input, prior string) bool {
+		return (strings.Contains(b.Panic, "unsupported flag") && strings.Contains(b.Panic, "in tag")) || (strings.Contains(b.Panic, "duplicated key") && strings.Contains(b.Panic, "in struct"))
+	}},
 	{"NULL_TO_ADDL_STRUCT_ERRORS", func(b drv.Bad, input, prior string) bool {
 		t := strings.TrimSpace(input)
 		return (strings.Contains(t, "null") || t == "" || t == "~") && strings.Contains(b.Panic, "reflect.Set: value of type map[string]interface {} is not assignable to type map[string]")
@@ -125,6 +130,16 @@ func c19Cases(level int) []SCase {
 	}
 	if level >= 1 {
 		add(c05Cases(0), 3)
+	}
+	// property names that the struct-tag syntax of the decoders interprets (a comma starts the option list): whatever becomes of the
+	// binding (C14), the methods must still return
+	for _, n := range []string{"a,b", "x,string", "k,omitempty,flow", "sp ace", "quo'te"} {
+		for _, extra := range []bool{false, true} {
+			cfg := baseCfg()
+			cfg.ExtraImports = extra
+			cases = append(cases, SCase{ID: fmt.Sprintf("C19/tag-option-name/%q/extra=%v", n, extra), Cfg: cfg, Axes: map[string]string{"pos": "tag-option-name", "leaf": n},
+				Schema: J{"type": "object", "properties": J{n: J{"type": "string"}, "k": J{"type": "string", "minLength": 1}}, "required": A{"k"}}})
+		}
 	}
 	out := cases[:0:0]
 	for i, c := range cases {
